@@ -228,7 +228,7 @@ func init() {
 				}
 			}
 		},
-		Rule: "cells of the product protocol {net/rpc, gRPC} x server TLS {none, TLSProvider} x client TLS {none, static matching, static wrong CA, AutoMTLS} x multiplexing requested x plugin generation {current, emulated pre-mux plugin} x launch {Cmd, custom runner, reattach} x AllowedProtocols {default, [grpc], both} + option conflicts, each against a real plugin subprocess. A classification table written from the statement maps every cell to MUST_WORK / MUST_FAIL_AT_START(kind) / MUST_NOT_WORK / EITHER_BUT_CLEAN; 'works' = Ping, identity-tagged call, brokered callback in both directions, 8 MiB response, error on an unknown plugin name. Quick: a seeded sample with every expectation kind (40 MUST_WORK cells); thorough: all 576 cells. Class = expectation + cell",
+		Rule:        "cells of the product protocol {net/rpc, gRPC} x server TLS {none, TLSProvider} x client TLS {none, static matching, static wrong CA, AutoMTLS} x multiplexing requested x plugin generation {current, emulated pre-mux plugin} x launch {Cmd, custom runner, reattach} x AllowedProtocols {default, [grpc], both} + option conflicts, each against a real plugin subprocess. A classification table written from the statement maps every cell to MUST_WORK / MUST_FAIL_AT_START(kind) / MUST_NOT_WORK / EITHER_BUT_CLEAN; 'works' = Ping, identity-tagged call, brokered callback in both directions, 8 MiB response, error on an unknown plugin name. Quick: a seeded sample with every expectation kind (40 MUST_WORK cells); thorough: all 576 cells. Class = expectation + cell",
 		Assumptions: []string{"AutoMTLS combined with a server TLSProvider, and AutoMTLS with reattach, are documented as unsupported: only 'no hang, no panic' is required there", "a pre-mux plugin is emulated by removing PLUGIN_MULTIPLEX_GRPC from the plugin's environment at its start", "static TLS = server certificate pinned as the client's RootCA, no client certificates"},
 	})
 }
